@@ -4,6 +4,7 @@ Expression trees (JSON-able lists/tuples).  ``lid`` names a leaf of the leaf tab
 
     ("leaf", lid)                                   the leaf itself
     ("ren", lid, old, new)                          leaf(old=new)               renaming
+    ("mren", lid, [[old, new], ..])                 leaf(old1=new1, old2=new2, ..)  simultaneous renaming (e.g. a swap)
     ("slice", lid, var, new, start, stop, step)     leaf(var=Slice(new, start, stop, step, size(var)))
     ("index", lid, var, new, [v0, v1, ..])          leaf(var=IndexTensor[new]) with IndexTensor[q] = v_q (injective)
     ("cat", var, [occ, occ, ..])                    concatenation of leaf occurrences along var
@@ -156,11 +157,13 @@ def concat(parts, name):
 # ---------------------------------------------------------------------------
 # occurrences
 
+OCC_KINDS = ("leaf", "ren", "mren", "slice", "index")
+
 
 def occurrences(e, path=()):
     """[(path, node)] of all leaf occurrences in pre-order; path identifies the occurrence."""
     k = e[0]
-    if k in ("leaf", "ren", "slice", "index"):
+    if k in OCC_KINDS:
         return [(path, e)]
     if k == "cat":
         out = []
@@ -189,6 +192,10 @@ def _access(node, x):
     if k == "ren":
         _, _, old, new = node
         return take(x, old, new, range(x.size(old)))
+    if k == "mren":
+        m = dict((o, n) for o, n in node[2])
+        assert all(o in x.names for o in m)
+        return NA([m.get(n, n) for n in x.names], x.arr)  # simultaneous; NA asserts the new names are distinct
     if k == "slice":
         _, _, var, new, start, stop, step = node
         return take(x, var, new, range(start, stop, step))
@@ -227,7 +234,7 @@ def _identity(spec):
 def evaluate(e, leaves, seed, target=None, path=()):
     """(value, tangent): tangent is None (zero) unless the occurrence at path ``target`` lies below e."""
     k = e[0]
-    if k in ("leaf", "ren", "slice", "index"):
+    if k in OCC_KINDS:
         spec = _spec(leaves, e[1])
         names = [n for n, _ in spec["inputs"]]
         val = _access(e, NA(names, leaf_data(e[1], spec, seed)))
@@ -292,7 +299,7 @@ def evaluate(e, leaves, seed, target=None, path=()):
 def free_names(e, leaves):
     """[(name, size)] of the free inputs of e, in first-mention order."""
     k = e[0]
-    if k in ("leaf", "ren", "slice", "index"):
+    if k in OCC_KINDS:
         return occ_names(e, leaves)
     if k == "cat":
         sizes = {}
